@@ -66,7 +66,7 @@ func (ld *Loaded) planFor(id string) *propertyPlan {
 	p := &propertyPlan{}
 	for _, k := range ld.cs.Order {
 		c := ld.cs.Funcs[k]
-		if c.Assumed || c.Iface || c.Inline || !c.hasProp(id) {
+		if c.Assumed || c.Iface || (c.Inline && len(c.Ensures) == 0) || !c.hasProp(id) {
 			continue
 		}
 		if len(ld.fnByKey[k]) == 0 {
@@ -170,6 +170,7 @@ func checkProperty(id string, thorough, verbose bool, replayFile string, timeout
 		results = append(results, ld.verifyLemma(l))
 	}
 	results = append(results, ld.staticScans(id)...)
+	results = append(results, ld.missingObligations(id)...)
 	genS := time.Since(t0).Seconds() - loadS
 	var all []*Obligation
 	engineErrs := 0
@@ -386,4 +387,20 @@ func writeEngineErrReplay(id string, results []*FuncResult) string {
 	b, _ := json.MarshalIndent(map[string]interface{}{"property": id, "obligation": "engine", "errors": errs, "confirmed": false}, "", " ")
 	os.WriteFile(p, b, 0o644)
 	return p
+}
+
+// missingObligations: a contract that contributes to the property but names a
+// function which no longer exists is a failed obligation (renames must be followed
+// in the contract file; a deleted method silently changes what a type does).
+func (ld *Loaded) missingObligations(id string) []*FuncResult {
+	var out []*FuncResult
+	for _, c := range ld.missing {
+		if !c.hasProp(id) {
+			continue
+		}
+		o := &Obligation{Name: c.Short + "#exists", Kind: "frame", Static: true, StaticOK: false, Props: c.Props,
+			Detail: fmt.Sprintf("contract at %s:%d names function %s which does not exist in the current tree", c.File, c.Line, c.Key)}
+		out = append(out, &FuncResult{Key: "static:" + o.Name, Obls: []*Obligation{o}})
+	}
+	return out
 }
